@@ -36,6 +36,76 @@ func NewHandler(kind string, w io.Writer, threshold int, addSource bool) logger.
 
 var ctx = context.Background()
 
+// NewHandlerLevel is NewHandler with an arbitrary numeric threshold (not only the five named levels).
+func NewHandlerLevel(kind string, w io.Writer, threshold slog.Level, addSource bool) logger.Handler {
+	opts := logger.NewOptions(threshold, false, addSource)
+	switch kind {
+	case "nano":
+		return logger.NewNanoHandler(w, opts)
+	case "text":
+		return logger.NewTextHandler(w, opts)
+	case "json":
+		return logger.NewJsonHandler(w, opts)
+	}
+	panic("logrun: unknown handler kind " + kind)
+}
+
+// EmitVia logs one record through one of the Logger's entry points: 0 Log, 1 the level's own
+// method (Debug / Info / Warn / Error; Fatal would end the process, so level 4 uses Log), 2 LogAttrs
+// (nodes are passed as slog.Attr), 3 the level's f-method / Logf (attributes are not passed: those
+// methods take none). Each entry point has one call site here, shared by the run and its alone replay.
+func EmitVia(l *logger.Logger, via, level int, msg string, nodes []attrgen.Node) {
+	switch via {
+	case 1:
+		args := attrgen.Args(nodes)
+		switch level {
+		case 0:
+			l.Debug(msg, args...)
+		case 1:
+			l.Info(msg, args...)
+		case 2:
+			l.Warn(msg, args...)
+		case 3:
+			l.Error(msg, args...)
+		default:
+			l.Log(ctx, Levels[level], msg, args...)
+		}
+	case 2:
+		attrs := make([]slog.Attr, len(nodes))
+		for i, n := range nodes {
+			attrs[i] = n.Attr()
+		}
+		l.LogAttrs(ctx, Levels[level], msg, attrs...)
+	case 3:
+		switch level {
+		case 0:
+			l.Debugf("%s", msg)
+		case 1:
+			l.Infof("%s", msg)
+		case 2:
+			l.Warnf("%s", msg)
+		case 3:
+			l.Errorf("%s", msg)
+		default:
+			l.Logf(ctx, Levels[level], "%s", msg)
+		}
+	default:
+		l.Log(ctx, Levels[level], msg, attrgen.Args(nodes)...)
+	}
+}
+
+// AloneLineVia is AloneLine for a record logged with EmitVia on a handler with threshold thr.
+func AloneLineVia(kind string, thr slog.Level, addSource bool, chain []attrgen.ChainOp, via, level int, msg string, attrs []attrgen.Node) (string, error) {
+	var buf bytes.Buffer
+	l := attrgen.Derive(logger.New(NewHandlerLevel(kind, &buf, thr, addSource)), chain)
+	EmitVia(l, via, level, msg, attrs)
+	if buf.Len() == 0 {
+		return "", nil
+	}
+	s, err := StripTime(kind, buf.Bytes())
+	return string(s), err
+}
+
 // Emit logs one record through the public API. Every monitor logs through this single
 // call site, so the source attribute of a record and of its alone replay agree.
 func Emit(l *logger.Logger, level int, msg string, args []any) {
